@@ -199,6 +199,19 @@ func (r *Run) Violate(sig, what string, desc any, traceOrFn any) {
 
 // Finish writes the result file; in stand-alone mode it fails the test on violations.
 func (r *Run) Finish() {
+	if p := recover(); p != nil {
+		// the monitor itself panicked (e.g. synctest found blocked goroutines at scenario end):
+		// write the partial result without the done mark; the driver attributes the death to the
+		// journalled scenario and restarts the shard after it
+		r.mu.Lock()
+		res := r.Res
+		r.mu.Unlock()
+		if r.out != "" {
+			b, _ := json.MarshalIndent(res, "", " ")
+			os.WriteFile(r.out, b, 0o644)
+		}
+		panic(p)
+	}
 	r.mu.Lock()
 	r.Res.Done = true
 	res := r.Res
